@@ -1,7 +1,103 @@
 import A2Verif.Model.Hex
-/-! driver family `c18` (stub until the family is built) -/
-namespace A2Verif.Drv.C18
+import A2Verif.Model.Srv
+/-!
+driver family `c18`: replay of an implementation event trace through the protocol model.
 
-def handle (_toks : List String) : String := "bad-request"
+`c18 trace <errs> <tok>…` where `<errs>` is the list of text ids whose analysis returns `Err`
+(`-` = none; the diagnostics token of text `t` is `t` itself) and each token is one observed event:
+
+* `O:u:v:t` didOpen, `C:u:v:t` didChange, `S:u:t` didSave, `X:u` didClose, `R` request, `T` idle pass
+* `G:live:u1,u2,…` configuration response (`live` 0/1, relaunch order as logged, `-` = no document)
+* `A:id` job returned from `lock()` with the guard, `E:id` `lock()` returned `Err`
+* `F:id:r` job left the closure normally with `Some` (`r`=1) / `None` (`r`=0), `D:id` job panicked
+* `H:id:k` main loop popped job `id` (`k` = `p` joined `Ok(Some)`, `n` `Ok(None)`, `e` `Err`)
+
+Every event must be enabled in the model *and* lead to the observed outcome; the answer is
+`ok pub=<u:v:t,…> lock=<free|held|poisoned> queue=<n>` or `stuck <index> <token>`.
+-/
+namespace A2Verif.Drv.C18
+open A2Verif.Srv
+
+def showVer : Ver → String
+  | some v => toString v
+  | none => "-"
+
+def parseVer (s : String) : Option Ver :=
+  if s == "-" then some none else s.toNat?.map some
+
+def jobSt (s : State) (id : Nat) : Option JobSt := (findJob s.queue id).map (·.st)
+
+/-- one observed event: step the model and check the observed outcome -/
+def replay1 (an : Text → Option Diags) (s : State) (tok : String) : Option State :=
+  match tok.splitOn ":" with
+  | ["O", u, v, t] => do step an s (.opn (← u.toNat?) (← v.toNat?) (← t.toNat?))
+  | ["C", u, v, t] => do step an s (.chg (← u.toNat?) (← v.toNat?) (← t.toNat?))
+  | ["S", u, t] => do step an s (.save (← u.toNat?) (← t.toNat?))
+  | ["X", u] => do step an s (.close (← u.toNat?))
+  | ["R"] => step an s .request
+  | ["T"] =>
+    -- an idle pass: the front job, if any, must be unfinished
+    match s.queue with
+    | j :: _ => if j.st.finished then none else step an s .tick
+    | [] => step an s .tick
+  | ["G", live, order] => do
+    let l ← if live == "1" then some true else if live == "0" then some false else none
+    step an s (.config l (← A2Verif.Hex.parseNatList order))
+  | ["A", id] => do
+    let i ← id.toNat?
+    let s' ← step an s (.acquire i)
+    if jobSt s' i == some .holding then some s' else none
+  | ["E", id] => do
+    let i ← id.toNat?
+    let s' ← step an s (.acquire i)
+    if jobSt s' i == some (.done none) then some s' else none
+  | ["F", id, r] => do
+    let i ← id.toNat?
+    let s' ← step an s (.finish i)
+    match jobSt s' i with
+    | some (.done x) => if (x.isSome && r == "1") || (x.isNone && r == "0") then some s' else none
+    | _ => none
+  | ["D", id] => do step an s (.die (← id.toNat?))
+  | ["H", id, k] => do
+    let i ← id.toNat?
+    match s.queue with
+    | j :: _ =>
+      if j.id ≠ i then none
+      else
+        let okk := match j.st with
+          | .done (some _) => k == "p"
+          | .done none => k == "n"
+          | .dead => k == "e"
+          | _ => false
+        if okk then step an s .tick else none
+    | [] => none
+  | _ => none
+
+def replay (an : Text → Option Diags) : State → Nat → List String → Except String State
+  | s, _, [] => .ok s
+  | s, i, tok :: rest =>
+    match replay1 an s tok with
+    | some s' => replay an s' (i + 1) rest
+    | none => .error s!"stuck {i} {tok}"
+
+def showLock : Lock → String
+  | .free => "free"
+  | .held _ => "held"
+  | .poisoned => "poisoned"
+
+def showPubs (ps : List Pub) : String :=
+  if ps.isEmpty then "-" else ",".intercalate (ps.map (fun p => s!"{p.uri}:{showVer p.ver}:{p.diags}"))
+
+def handle (toks : List String) : String :=
+  match toks with
+  | "trace" :: errs :: evs =>
+    match A2Verif.Hex.parseNatList errs with
+    | none => "bad-request"
+    | some es =>
+      let an : Text → Option Diags := fun t => if es.contains t then none else some t
+      match replay an init 0 evs with
+      | .ok s => s!"ok pub={showPubs s.published} lock={showLock s.lock} queue={s.queue.length}"
+      | .error e => e
+  | _ => "bad-request"
 
 end A2Verif.Drv.C18
